@@ -154,12 +154,15 @@ func clip(b []byte, n int) string {
 
 // checkRapid is ev.Check for a property with several legs of different case types: known
 // witnesses are replayed only when they decode into a case this leg owns.
-func checkRapid[C any](t *testing.T, c *ev.Collector, checks int, gen func(*rapid.T) C, prop0 func(C) (ev.Outcome, error), mine func(C) bool) {
+//
+// prop0 decides campaign cases (it may skip failures of known classes that the generator
+// could not avoid by construction); strict decides replayed cases and never skips.
+func checkRapid[C any](t *testing.T, c *ev.Collector, checks int, gen func(*rapid.T) C, prop0, strict func(C) (ev.Outcome, error), mine func(C) bool) {
 	t.Helper()
 	prop := ev.Safe(prop0)
 	completed := false
 	defer func() { c.Flush(completed) }()
-	if ev.HandleReplay(t, c, prop0) {
+	if ev.HandleReplay(t, c, strict) {
 		completed = true
 		return
 	}
@@ -176,7 +179,7 @@ func checkRapid[C any](t *testing.T, c *ev.Collector, checks int, gen func(*rapi
 		if err := ev.ReplayCase(filepath.Join(root, k.Witness), &cs); err != nil || !mine(cs) {
 			continue
 		}
-		if _, err := prop(cs); err != nil {
+		if _, err := ev.Safe(strict)(cs); err != nil {
 			fmt.Printf("KNOWN-FINDING: property=%s %s\n", k.Property, k.What)
 		} else {
 			c.Note("known finding %s: witness no longer fails", k.Class)
